@@ -723,7 +723,7 @@ pub fn c17(args: &Args) -> Report {
         p.kinds = vec![1, 1, 7, 0, 10002, 30023, 1059];
         // ordinary times plus ones later than the wall clock (year 2100, the largest value): every access path must
         // still find such events, including the pure time-window filter served by the scan over the time index
-        p.times = vec![100, 101, 102, 200, 100, 101, 4_102_444_800, u64::MAX];
+        p.times = vec![100, 101, 102, 200, 100, 101, 0, 1, 4_102_444_800, u64::MAX];
         p.content_lens = vec![0, 5];
         p.max_extra_tags = 6;
         let mut mix = Mix::base();
